@@ -10,3 +10,6 @@ import Gittuf.Props.C01
 #print axioms Gittuf.World.lookForFix_partition
 #print axioms Gittuf.World.C01_relative_sound
 #print axioms Gittuf.World.C01_full_sound
+#print axioms Gittuf.World.go_accept_rule_met
+#print axioms Gittuf.World.verifyObject_accept
+#print axioms Gittuf.World.C01_entry_accept
